@@ -299,21 +299,29 @@ def main_check(pid, tier):
             else:
                 v["count"] += info["count"]
 
-    # 3. shrink new buckets found by generation (one process per bucket, bounded wall clock)
+    # 3. shrink new buckets found by generation (one process per bucket, in parallel, bounded wall clock)
     out_lines = []
-    for b, info in sorted(violations.items()):
-        spec, detail = info["spec"], info["detail"]
-        if info.get("origin") == "generated" and os.environ.get("VERIF_NO_SHRINK") != "1":
-            tmpf = os.path.join(HERE, "findings", f".shrink-{os.getpid()}.json")
-            os.makedirs(os.path.dirname(tmpf), exist_ok=True)
+    procs = {}
+    if os.environ.get("VERIF_NO_SHRINK") != "1":
+        todo = [(b, info) for b, info in sorted(violations.items()) if info.get("origin") == "generated"]
+        os.makedirs(os.path.join(HERE, "findings"), exist_ok=True)
+        for n, (b, info) in enumerate(todo[:12]):
+            tmpf = os.path.join(HERE, "findings", f".shrink-{os.getpid()}-{n}.json")
             job = (pid, tier, seed, info["worker"], nworkers, nexamples, 1e9, b, tmpf)
             p = ctx.Process(target=_worker, args=(job,))
             p.start()
-            p.join(SHRINK_WALL[tier])
+            procs[b] = (p, tmpf)
+        deadline = time.time() + SHRINK_WALL[tier]
+        for b, (p, tmpf) in procs.items():
+            p.join(max(0.1, deadline - time.time()))
             if p.is_alive():
                 p.terminate(); p.join(5)
                 if p.is_alive():
                     p.kill(); p.join()
+    for b, info in sorted(violations.items()):
+        spec, detail = info["spec"], info["detail"]
+        if b in procs:
+            tmpf = procs[b][1]
             if os.path.exists(tmpf):
                 try:
                     with open(tmpf) as f:
